@@ -142,6 +142,16 @@ def raiseSet (panel : String) : Family → List UInt8
 def refreshCmds (panel : String) : Family → List UInt8
   | .ssd => [0x20]
   | _ => if panel == "epd2in7" ∨ panel == "epd2in7b" then [0x12, 0x16] else [0x12]
+/-- calls other than construction / wake_up that pulse the reset line and follow it with the
+    VENDOR's reduced re-initialisation for that mode (Waveshare reference code: `EPD_2IN9_V2_Display_Partial`,
+    `EPD_2IN9D_SetPartReg`, `EPD_2IN13_V2_Init(PART)`), which relies on power-on-reset defaults for the
+    rest.  C09 accepts these sequences as the initialisation that follows their own reset; a reset
+    pulse in any other call must be followed by everything construction programs. -/
+def vendorReinit (panel op : String) : Bool :=
+  (panel == "epd2in9_v2" && (op == "newf" || op == "updispnew" || op == "pnew")) ||
+  (panel == "epd2in9d" && (op == "part" || op == "dpart")) ||
+  (panel == "epd2in13_v2" && (op == "refresh" || op == "lut"))
+
 def imageCmds (panel : String) : Family → List UInt8
   | .ssd => [0x24, 0x26, 0x46, 0x47]
   | _ => if panel == "epd2in7" ∨ panel == "epd2in7b" then [0x10, 0x13, 0x14, 0x15] else [0x10, 0x13]
